@@ -8,7 +8,14 @@ enum over finite matrices, every cell executed as a live handshake of two real t
   `disabled_algorithms["pubkeys"]` = D;
 * both roles: Ed25519 / ECDSA keys whose signature blob carries another name, and keys of another
   type than the negotiated / declared algorithm.
-Oracle: accepted <=> a == h == n (resp. d, cert suffix stripped) and that algorithm is enabled.
+* history dimension (what happened earlier on the same connection must not matter):
+  - kex role: a first, honest exchange negotiates n0; then the client narrows its enabled host-key
+    algorithms by D (SecurityOptions.key_types), the server offers / pushes n and signs the *re-key*
+    exchange with (h, a);
+  - auth role: the crafted request is preceded, in the same authentication session and for the same
+    key blob, by a signature-less probe or by a request with a bad signature that declares a0.
+Oracle: accepted <=> a == h == n (resp. d, cert suffix stripped) and that algorithm is enabled
+(at the time of the exchange / request that is judged).
 """
 import os
 
@@ -28,7 +35,12 @@ META = {
             "-cert-v01 declared names x 3 signature algorithms x 3 disabled sets for public-key auth; "
             "Ed25519 and ECDSA-256/384/521 keys with each of 11 names in the blob; keys of a "
             "different type than negotiated/declared. Both roles (client verifying the kex signature, "
-            "server verifying public-key auth).",
+            "server verifying public-key auth). History dimension: kex role - first exchange with n0 in "
+            "RSA^1, then the client's enabled set shrinks by D and the re-key exchange is signed with "
+            "(negotiated n, signature algorithm) in RSA^2 = 81 cells, plus ed25519/ecdsa-256 re-keys "
+            "with the (old or new) algorithm disabled; auth role - the request (declared, signature "
+            "algorithm) in RSA^2 x D is preceded by {probe, bad-signature request} declaring a0 in RSA "
+            "(enabled on the server) for the same key blob = 108 cells.",
     "note": "the signing peer is a real paramiko transport whose key object is wrapped by the harness "
             "(kex) or a harness-built USERAUTH_REQUEST sent through the real client transport (auth); "
             "host certificates are not covered (paramiko's server side cannot present them)",
@@ -112,6 +124,33 @@ def cells(tier):
             for D in DISABLED_SETS:
                 out.append({"role": "auth", "alg": alg + CERT, "keykind": "rsa", "hash": sig,
                             "name": sig, "disabled": list(D), "cert": True})
+    # history dimension, kex role: the judged exchange is a re-key after an honest exchange with
+    # `first`; `disabled` is removed from the client's enabled host-key algorithms in between
+    for first in RSA:
+        for alg in RSA:
+            for sig in RSA:
+                for D in DISABLED_SETS:
+                    out.append({"role": "kex", "alg": alg, "keykind": "rsa", "hash": sig, "name": sig,
+                                "disabled": list(D), "cert": False, "first": first})
+    two = ("ssh-ed25519", "ecdsa-sha2-nistp256")
+    for first in two:
+        for alg in two:
+            # another key family after the re-key: only the must-reject cell (whether a client
+            # follows an enabled host key of another type on re-key is not C07's business)
+            for D in (((), (alg,)) if first == alg else ((alg,),)):
+                out.append({"role": "kex", "alg": alg, "keykind": NONRSA[alg], "hash": None,
+                            "name": alg, "disabled": list(D), "cert": False, "first": first})
+    # history dimension, auth role: an earlier request for the same key blob in the same session
+    for kind in ("probe", "bad-signature"):
+        for a0 in RSA:
+            for alg in RSA:
+                for sig in RSA:
+                    for D in DISABLED_SETS:
+                        if a0 in D:
+                            continue    # the server disconnects on the earlier request; no sequel
+                        out.append({"role": "auth", "alg": alg, "keykind": "rsa", "hash": sig,
+                                    "name": sig, "disabled": list(D), "cert": False,
+                                    "prior": [kind, a0]})
     return out
 
 
@@ -130,8 +169,64 @@ class PushyServer(K.RecTransport):
         return parsed
 
 
+def run_rekey_cell(cell):
+    """Client verifies the server's signature of a *re-key* exchange; the first exchange was honest
+    with cell["first"], then the client's enabled host-key algorithms shrank by cell["disabled"]."""
+    def body(s):
+        p = F.Pair(hostkeys=(), tclass=K.RecTransport, sclass=PushyServer)
+        first = cell["first"]
+        p.ts.server_key_dict[first] = F.key(K.HOSTKEY_ALGS[first])
+        p.ts.get_security_options().key_types = (first,)
+        p.start()
+        p.auth()
+        so = p.tc.get_security_options()
+        so.key_types = tuple(k for k in so.key_types if k not in cell["disabled"])
+        enabled = list(p.tc.preferred_keys)
+        p.ts.server_key_dict.clear()
+        p.ts.server_key_dict[cell["alg"]] = signing_key(cell)
+        p.ts.get_security_options().key_types = (cell["alg"],)
+        p.ts.forced_hostkey = cell["alg"]
+        err = None
+        try:
+            p.tc.renegotiate_keys()
+        except Exception as e:  # noqa
+            err = e
+        s.quiesce()
+        alive = None
+        if p.tc.active:
+            try:
+                c, sv = p.session()
+                c.send(b"ping")
+                alive = sv.recv(4) == b"ping"
+            except Exception as e:  # noqa
+                alive = repr(e)
+        out = {"err": err or p.tc.saved_exception, "active": p.tc.active,
+               "newkeys_count": p.tc.packetizer.sent_types().count(21),
+               "first_negotiated": p.tc.agree_log[0]["hostkey"] if p.tc.agree_log else None,
+               "negotiated": p.tc.agree_log[1]["hostkey"] if len(p.tc.agree_log) > 1 else None,
+               "sig_seen": (X.sig_algorithm(p.tc.verify_log[1][1]) if len(p.tc.verify_log) > 1
+                            else None),
+               "enabled": enabled, "alive": alive}
+        p.close()
+        s.quiesce()
+        return out
+    ex = K.run(body)
+    if ex.outcome != "ok":
+        return None, {"outcome": ex.outcome, "error": repr(ex.error)}
+    v = ex.value
+    if v["first_negotiated"] != cell["first"] or any(d in v["enabled"] for d in cell["disabled"]):
+        return None, {"outcome": "first exchange / disabling not as planned", "detail": repr(v)}
+    accepted = bool(v["active"] or v["newkeys_count"] > 1)
+    return accepted, {"client_raised": repr(v["err"]), "first_exchange": v["first_negotiated"],
+                      "client_enabled_at_rekey": v["enabled"], "negotiated": v["negotiated"],
+                      "signature_algorithm_seen": v["sig_seen"], "session_usable_after": v["alive"]}
+
+
 def run_kex_cell(cell):
     """Client verifies the server's kex signature."""
+    if cell.get("first"):
+        return run_rekey_cell(cell)
+
     def body(s):
         p = F.Pair(hostkeys=(), tclass=K.RecTransport, sclass=PushyServer,
                    client_kw={"disabled_algorithms": {"keys": list(cell["disabled"])}})
@@ -187,6 +282,18 @@ def run_auth_cell(cell):
         user = "alice"
         p.tc._send_message(F.msg(5, ("str", b"ssh-userauth")))
         s.quiesce()
+        prior = None
+        if cell.get("prior"):
+            kind, a0 = cell["prior"]
+            fields = [("str", user), ("str", "ssh-connection"), ("str", "publickey"),
+                      ("bool", kind != "probe"), ("str", a0), ("str", keyblob)]
+            if kind != "probe":
+                # a genuine a0 signature of this key, but over other data than the request
+                fields.append(("str", F.key(cell["keykind"]).sign_ssh_data(core.filler(64, 71), a0).asbytes()))
+            p.tc._send_message(F.msg(50, *fields))
+            s.quiesce()
+            st0 = p.ts.packetizer.sent_types()
+            prior = {"pk_ok": 60 in st0, "failure": 51 in st0, "success": 52 in st0}
         blob = (X.sstr(p.tc.session_id) + bytes([50]) + X.sstr(user) + X.sstr("ssh-connection")
                 + X.sstr("publickey") + b"\x01" + X.sstr(cell["alg"]) + X.sstr(keyblob))
         sig = key.sign_ssh_data(blob, cell["alg"]).asbytes()
@@ -197,7 +304,8 @@ def run_auth_cell(cell):
         st = p.ts.packetizer.sent_types()
         out = {"success_sent": 52 in st, "failure_sent": 51 in st, "disconnect_sent": 1 in st,
                "server_authenticated": p.ts.is_authenticated(),
-               "callback": [e[0] for e in p.server.log], "service_accept": 6 in st}
+               "callback": [e[0] for e in p.server.log], "service_accept": 6 in st,
+               "prior_request": prior}
         p.close()
         s.quiesce()
         return out
@@ -207,10 +315,21 @@ def run_auth_cell(cell):
     v = ex.value
     if not v["service_accept"]:
         return None, {"outcome": "no SERVICE_ACCEPT", "detail": v}
+    if v["prior_request"] and v["prior_request"]["success"]:
+        return None, {"outcome": "earlier request (no / bad signature) authenticated", "detail": v}
     return (v["success_sent"] or v["server_authenticated"]), v
 
 
 def violation_key(cell, accepted):
+    k = _violation_key(cell, accepted)
+    if cell.get("first"):
+        k += ":in-rekey-exchange"
+    if cell.get("prior"):
+        k += ":after-earlier-request-for-same-key"
+    return k
+
+
+def _violation_key(cell, accepted):
     site = "Transport._verify_key" if cell["role"] == "kex" else "AuthHandler._parse_userauth_request"
     what = "negotiated" if cell["role"] == "kex" else "declared"
     want = strip(cell["alg"])
@@ -245,9 +364,11 @@ def work(chunk, acc):
         mismatch = (cell["keykind"] == "rsa" and not (cell["name"] == cell["hash"] == strip(cell["alg"]))) \
             or (cell["keykind"] != "rsa" and cell["name"] != strip(cell["alg"])) \
             or bool(cell["disabled"])
+        if cell.get("first") or cell.get("prior"):
+            acc.count("%s_history_cells" % cell["role"])
         if mismatch:
             acc.nt((cell["role"], cell["alg"], cell["keykind"], cell["hash"], cell["name"],
-                    tuple(cell["disabled"])))
+                    tuple(cell["disabled"]), cell.get("first"), tuple(cell.get("prior") or ())))
         if accepted != want:
             acc.violation(violation_key(cell, accepted),
                           {"cell": cell, "expected": "accept" if want else "reject",
@@ -263,10 +384,14 @@ def main(tier):
         "one evaluation = one cell = one live handshake (kex role) or handshake + crafted "
         "USERAUTH_REQUEST (auth role); nontrivial = distinct cell in which the signature's name/hash "
         "differs from the negotiated/declared algorithm, the key type differs, or something is "
-        "disabled on the verifier",
+        "disabled on the verifier; history cells (re-key after a first exchange / request after an "
+        "earlier request for the same key) are distinct cells",
         ["RSA fixture key is 1024 bit; the installed cryptography still signs RSA/SHA-1",
          "the server's check_auth_publickey callback accepts every key, so the signature check is "
-         "the only gate", "quick and thorough enumerate the same (complete) matrices"])
+         "the only gate", "quick and thorough enumerate the same (complete) matrices",
+         "history depth 1: one earlier exchange / one earlier request; the client narrows its enabled "
+         "host-key algorithms between the exchanges through SecurityOptions.key_types; the re-key is "
+         "started by the client"])
     cs = cells(tier)
     try:
         F.key("rsa").sign_ssh_data(b"x", "ssh-rsa")
